@@ -11,6 +11,16 @@ values, NaN == NaN).  Evaluators: ``onnx.reference.ReferenceEvaluator`` and onnx
 optimisations.  A pass that raises produces no transformed model (counted ``pass_error:<Pass>``; the
 successful prefix is judged instead).
 
+Input classes added for code the workload did not reach (all ``extra`` gen_exec features; ``reach:*`` counters with
+floors show that the code was put to work): Constant nodes in the string forms and STRING initializers (string outputs
+are compared exactly, as UTF-8 bytes); functions with trailing optional inputs called with fewer inputs than declared or
+with "" in the middle; functions importing a domain the model does not import; twin NON-DETERMINISTIC nodes without a
+seed, observed only through ``all(a == b)`` - 0 with probability 1 (< 2**-60 otherwise) for two independent draws, 1 for
+one shared draw - so that merging them is an ordinary output difference; Identity between symbolic declared shapes
+(reached, but a wrong merged shape has no observable in this property).  Outside the judged domain: initializers
+without a tensor (the library itself calls them invalid), function parameters of GRAPH type (the inliner documents
+that it refuses them), string tensors with trailing NUL bytes (both evaluators drop them when handing out strings).
+
 Models are drawn with the ``extra`` gen_exec features (function chains forwarding attribute parameters under other
 names; function-internal names reused from the call site's name space), and InlinePass is also driven with criteria
 that split a call chain at different levels (leaf / non-leaf / name parity), so that kept functions receive inlined
@@ -64,6 +74,10 @@ ASSUMPTIONS = [
     "initializer-backed graph inputs are inputs too: up to 2 extra runs per model override them by name; such a run is "
     "replayed on P(M) only if every overridden name is still an initializer-backed input with the same default there",
     "'for all inputs' is sampled by 3 input sets per model; +0.0 and -0.0 compare equal (IEEE), NaN equals NaN",
+    "string outputs are compared as UTF-8 bytes element by element (an evaluator returns str, bytes or object arrays "
+    "depending on whether the value came from a Constant attribute or an initializer)",
+    "two seedless non-deterministic nodes (RandomNormal/Uniform[Like] 16 floats, Multinomial 40 draws of 3 classes, "
+    "Bernoulli / training Dropout 64 elements at p=0.5) do not produce identical tensors: probability < 2**-60 per run",
 ]
 
 
@@ -304,6 +318,72 @@ def shadowed_names(proto, declared_only: bool = False) -> set[str]:
     return found
 
 
+# ---- reach monitors: did the workload put the rarely reached rewriting code to work? ----------------------------
+_RANDOM_OPS = {"RandomNormal", "RandomUniform", "RandomNormalLike", "RandomUniformLike", "Multinomial", "Bernoulli"}
+
+
+def _all_graphs(graph):
+    yield graph
+    for n in graph.node:
+        for a in n.attribute:
+            for g in ([a.g] if a.type == onnx.AttributeProto.GRAPH else list(a.graphs)):
+                yield from _all_graphs(g)
+
+
+def reach_stats(proto) -> dict:
+    """Structural facts of a model that the reach counters compare before / after a pass sequence (never a verdict)."""
+    declared = {(_norm(f.domain), f.name, f.overload): len(f.input) for f in proto.functions}
+    main_nodes = list(_all_nodes(proto.graph.node))
+    everywhere = main_nodes + [n for f in proto.functions for n in _all_nodes(f.node)]
+    string_consts = sum(1 for n in main_nodes if n.op_type == "Constant" and n.domain in ("", "ai.onnx")
+                        and any(a.name in ("value_string", "value_strings") for a in n.attribute))
+    string_inits = [sum(1 for t in g.initializer if t.data_type == onnx.TensorProto.STRING) for g in _all_graphs(proto.graph)]
+    absent = 0
+    for n in everywhere:
+        k = declared.get((_norm(n.domain), n.op_type, n.overload))
+        if k is not None and (len(n.input) < k or any(i == "" for i in n.input)):
+            absent += 1
+    imported = {_norm(o.domain) for o in proto.opset_import}
+    foreign = {_norm(o.domain) for f in proto.functions for o in f.opset_import} - imported
+    symbolic = sum(1 for g in _all_graphs(proto.graph) for vi in list(g.value_info) + list(g.output)
+                   if any(not d.HasField("dim_value") for d in vi.type.tensor_type.shape.dim))
+    return {
+        "string_consts": string_consts, "string_inits": sum(string_inits), "string_inits_max": max(string_inits),
+        "absent_calls": absent, "foreign": foreign, "imported": imported,
+        "random_main": sum(1 for n in proto.graph.node if n.op_type in _RANDOM_OPS or (n.op_type == "Dropout" and len(n.input) == 3)),
+        "identities": sum(1 for n in main_nodes if n.op_type == "Identity"), "symbolic": symbolic,
+    }
+
+
+def count_reach(ctx, case: GE.Case, proto, applied) -> None:
+    before = case.__dict__.get("_c05_reach")
+    if before is None:
+        before = case.__dict__["_c05_reach"] = reach_stats(case.proto)
+    after = reach_stats(proto)
+    names = {s[0] for s in applied}
+    lift_all = any(s[0] == "LiftConstantsToInitializersPass" and s[1].startswith("all") for s in applied)
+    if lift_all and before["string_consts"]:
+        ctx.count("reach:lift_all_on_string_constants")
+        if after["string_consts"] < before["string_consts"] and after["string_inits"] > before["string_inits"]:
+            ctx.count("reach:string_constant_lifted")
+    if names & {"DeduplicateInitializersPass", "DeduplicateHashedInitializersPass"} and before["string_inits_max"] >= 2:
+        ctx.count("reach:dedup_on_string_initializers")
+        if after["string_inits"] < before["string_inits"]:
+            ctx.count("reach:string_initializers_merged")
+    if "InlinePass" in names and before["absent_calls"]:
+        ctx.count("reach:inline_on_calls_with_absent_inputs")
+        if after["absent_calls"] < before["absent_calls"]:
+            ctx.count("reach:call_with_absent_input_inlined")
+    if "InlinePass" in names and before["foreign"]:
+        ctx.count("reach:inline_on_function_with_foreign_opset")
+        if before["foreign"] & after["imported"]:
+            ctx.count("reach:inline_added_opset_import")
+    if "CommonSubexpressionEliminationPass" in names and after["random_main"] >= 2:
+        ctx.count("reach:cse_on_random_twins")
+    if "IdentityEliminationPass" in names and before["symbolic"] and after["identities"] < before["identities"]:
+        ctx.count("reach:identity_eliminated_with_symbolic_dims")
+
+
 def overrides_allowed(specs) -> bool:
     """RemoveInitializersFromInputsPass legitimately turns an optional input into a constant; what
     later passes do with that constant (merge it, expose it again under the old name) is then
@@ -311,7 +391,7 @@ def overrides_allowed(specs) -> bool:
     return all(s[0] != "RemoveInitializersFromInputsPass" for s in specs)
 
 
-def evaluate(case: GE.Case, model: ir.Model, ctx=None, want: str | None = None, overrides: bool = True):
+def evaluate(case: GE.Case, model: ir.Model, ctx=None, want: str | None = None, overrides: bool = True, applied=None):
     """All refuting events of the transformed model, as a list of (clause, message).  ``want``
     restricts the work to one clause kind (used while shrinking)."""
     def count(key, n=1):
@@ -324,6 +404,8 @@ def evaluate(case: GE.Case, model: ir.Model, ctx=None, want: str | None = None, 
     except Exception as e:  # noqa: BLE001
         return [("serialize-raises", f"P(M) cannot be serialised: {type(e).__name__}: {e}")]
     found = []
+    if ctx is not None and applied is not None:
+        count_reach(ctx, case, proto, applied)
     msg = GE.check(proto)
     count("checker_decided")
     if msg is not None:
@@ -662,6 +744,13 @@ def plan(tier: str) -> dict:
     floors = {"pass_ok:" + n: (25 if quick else 250) for n in PASS_VARIANTS}
     floors.update({"compared:ref": 600 if quick else 8000, "compared:ort": 800 if quick else 10000,
                    "checker_decided": 500 if quick else 6000, "models_admitted": 150 if quick else 2000})
+    # the rarely reached rewriting code must have been put to work (observed on quick, ~2000 models: 43 / 257 / 120 /
+    # 97 / 120 / 100): string constants lifted, string initializers merged, calls with omitted / "" inputs inlined,
+    # an opset import added by the inliner, CSE run over twin non-deterministic nodes, Identity between symbolic shapes
+    for key, floor in (("reach:string_constant_lifted", 3), ("reach:string_initializers_merged", 15),
+                       ("reach:call_with_absent_input_inlined", 8), ("reach:inline_added_opset_import", 6),
+                       ("reach:cse_on_random_twins", 8), ("reach:identity_eliminated_with_symbolic_dims", 6)):
+        floors[key] = floor if quick else 10 * floor
     return {
         "cases": 8000 if quick else 110000,
         "shards": 16,
@@ -702,7 +791,7 @@ def run_sequence(ctx, case: GE.Case, rng: random.Random, number: int) -> None:
     if model is None or not flat:
         ctx.count("sequences_without_transformed_model")
         return
-    found = evaluate(case, model, ctx, overrides=overrides_allowed(flat))
+    found = evaluate(case, model, ctx, overrides=overrides_allowed(flat), applied=flat)
     info = case.info
     nontrivial = any(flags) and (info["has_subgraph"] or info["has_function"] or info["has_planted_duplicate"])
     ctx.evaluation(key=stable_hash([info["planted"], flat, source]), nontrivial=nontrivial)
